@@ -85,16 +85,18 @@ Record tstate := {
   t_cols : option (list name);      (* column_names: None = not loaded since restart *)
   (* durable: directory tables/<name>/ and this table's entries of the catalogue file *)
   t_files : list (N * list row);
-  t_meta : list pmeta
+  t_meta : list pmeta;
+  (* this table's entry of wal_flush's partitions_to_delete (empty outside a flush) *)
+  t_dead : list N
 }.
 
 Definition set_buf (t : tstate) (b : list row) : tstate :=
   {| t_buf := b; t_frozen := t_frozen t; t_parts := t_parts t; t_next_id := t_next_id t;
-     t_next_off := t_next_off t; t_cols := t_cols t; t_files := t_files t; t_meta := t_meta t |}.
+     t_next_off := t_next_off t; t_cols := t_cols t; t_files := t_files t; t_meta := t_meta t; t_dead := t_dead t |}.
 
 Definition set_cols (t : tstate) (c : option (list name)) : tstate :=
   {| t_buf := t_buf t; t_frozen := t_frozen t; t_parts := t_parts t; t_next_id := t_next_id t;
-     t_next_off := t_next_off t; t_cols := c; t_files := t_files t; t_meta := t_meta t |}.
+     t_next_off := t_next_off t; t_cols := c; t_files := t_files t; t_meta := t_meta t; t_dead := t_dead t |}.
 
 (* rows of the table in offset order: partitions, then frozen buffer, then open buffer
    (Table::snapshot) *)
@@ -128,7 +130,7 @@ Definition freeze (t : tstate) : option tstate :=
   match t_frozen t with
   | [] => Some {| t_buf := []; t_frozen := t_buf t; t_parts := t_parts t; t_next_id := t_next_id t;
                   t_next_off := t_next_off t; t_cols := t_cols t; t_files := t_files t;
-                  t_meta := t_meta t |}
+                  t_meta := t_meta t; t_dead := t_dead t |}
   | _ :: _ => None
   end.
 
@@ -170,7 +172,7 @@ Definition batch_table (size : N) (t : tstate) : tstate :=
       {| t_buf := t_buf t; t_frozen := []; t_parts := t_parts t ++ [p];
          t_next_id := t_next_id t + 1; t_next_off := t_next_off t + p_len p;
          t_cols := t_cols t; t_files := store_file (p_id p) rows (t_files t);
-         t_meta := t_meta t |}
+         t_meta := t_meta t; t_dead := t_dead t |}
   end.
 
 (* ---------------------------------------------------------------------------------------------- *)
@@ -252,8 +254,8 @@ Definition rebuild_rows (cols : list name) (ps : list part) : list row :=
 (* compaction of the partitions from index i on (InnerLocustDB::compact, Table::compact,
    Storage::prepare_compact, then - after the catalogue file is durable -
    Storage::delete_orphaned_partitions).  The id of the merged partition was drawn by
-   flush_table_buffer (table.next_partition_id()).  Returns the new state and the ids whose files
-   are to be deleted. *)
+   flush_table_buffer (table.next_partition_id()).  The ids whose files are to be deleted are
+   recorded in t_dead. *)
 
 Inductive known := KF1 | KF3.
 
@@ -266,7 +268,7 @@ Arguments TKnown {A} k.
 Arguments TPanic {A}.
 
 Definition compact (guard : bool) (size : N) (i : nat) (cols : list name) (t : tstate)
-  : tres (tstate * list N) :=
+  : tres tstate :=
   let keep := firstn i (t_parts t) in
   let merged := skipn i (t_parts t) in
   match merged with
@@ -277,10 +279,10 @@ Definition compact (guard : bool) (size : N) (i : nat) (cols : list name) (t : t
       else
         let rows := rebuild_rows cols merged in
         let p := {| p_id := t_next_id t; p_off := p_off first; p_size := size; p_rows := rows |} in
-        TVal ({| t_buf := t_buf t; t_frozen := t_frozen t; t_parts := keep ++ [p];
-                 t_next_id := t_next_id t + 1; t_next_off := t_next_off t; t_cols := t_cols t;
-                 t_files := store_file (p_id p) rows (t_files t); t_meta := t_meta t |},
-              map p_id merged)
+        TVal {| t_buf := t_buf t; t_frozen := t_frozen t; t_parts := keep ++ [p];
+                t_next_id := t_next_id t + 1; t_next_off := t_next_off t; t_cols := t_cols t;
+                t_files := store_file (p_id p) rows (t_files t); t_meta := t_meta t;
+                t_dead := t_dead t ++ map p_id merged |}
   end.
 
 (* the table's part of Storage::persist_metastore: the catalogue file now lists the current
@@ -288,11 +290,17 @@ Definition compact (guard : bool) (size : N) (i : nat) (cols : list name) (t : t
 Definition publish_meta (t : tstate) : tstate :=
   {| t_buf := t_buf t; t_frozen := t_frozen t; t_parts := t_parts t; t_next_id := t_next_id t;
      t_next_off := t_next_off t; t_cols := t_cols t; t_files := t_files t;
-     t_meta := map pmeta_of (t_parts t) |}.
+     t_meta := map pmeta_of (t_parts t); t_dead := t_dead t |}.
 
-Definition set_files (t : tstate) (fs : list (N * list row)) : tstate :=
-  {| t_buf := t_buf t; t_frozen := t_frozen t; t_parts := t_parts t; t_next_id := t_next_id t;
-     t_next_off := t_next_off t; t_cols := t_cols t; t_files := fs; t_meta := t_meta t |}.
+(* the table's part of Storage::delete_orphaned_partitions *)
+Definition delete_dead (t : tstate) : option tstate :=
+  match delete_files (t_dead t) (t_files t) with
+  | None => None
+  | Some fs =>
+      Some {| t_buf := t_buf t; t_frozen := t_frozen t; t_parts := t_parts t;
+              t_next_id := t_next_id t; t_next_off := t_next_off t; t_cols := t_cols t;
+              t_files := fs; t_meta := t_meta t; t_dead := [] |}
+  end.
 
 (* ---------------------------------------------------------------------------------------------- *)
 (* restart: Table::restore_tables_from_disk for one table (insert_nonresident_partition for every
@@ -320,9 +328,9 @@ Definition restore (cols0 : option (list name)) (t : tstate) : option tstate :=
   | Some ps =>
       Some {| t_buf := []; t_frozen := []; t_parts := ps;
               t_next_id := max_next_id (t_meta t); t_next_off := max_next_off (t_meta t);
-              t_cols := cols0; t_files := t_files t; t_meta := t_meta t |}
+              t_cols := cols0; t_files := t_files t; t_meta := t_meta t; t_dead := t_dead t |}
   end.
 
 Definition empty_table (cols0 : option (list name)) : tstate :=
   {| t_buf := []; t_frozen := []; t_parts := []; t_next_id := 0; t_next_off := 0; t_cols := cols0;
-     t_files := []; t_meta := [] |}.
+     t_files := []; t_meta := []; t_dead := [] |}.
